@@ -814,7 +814,10 @@ def decide(pid, cfg, tier, seed, units, work, ev):
         rows = []
         try:
             import witness
-            fsets = ALL_FEATURE_SETS if (cfg.get('all_feature_sets') and tier == 'thorough') else [mirror.ALL_FEATURES]
+            fsets = [mirror.ALL_FEATURES]
+            if cfg.get('all_feature_sets'):
+                # C16: the stand-ins are built and run under several feature sets (all eight in the thorough tier)
+                fsets = ALL_FEATURE_SETS if tier == 'thorough' else [tuple(x) for x in cfg.get('bounded', {}).get('quick_feature_sets', [list(mirror.ALL_FEATURES)])]
             for fs in fsets:
                 binary, blog = witness.build(work, fs)
                 if binary is None:
